@@ -436,6 +436,13 @@ pub fn c06_mutants(ptrw: usize) -> Vec<(&'static str, Vec<(ItemPath, Module)>, u
             ];
             v[1].attributes = Attributes(vec![Attribute::calling_convention("cdecl")]);
             v
+        } else if family == 2 {
+            // a slot without a receiver in the middle of the table
+            vec![
+                Function::new((Visibility::Public, "a"), [Argument::ConstSelf, Argument::named("x", Type::ident("u32"))]).with_return_type(Type::ident("i32")),
+                Function::new((Visibility::Public, "create"), [Argument::named("seed", Type::ident("u32"))]).with_return_type(Type::ident("u8").mut_pointer()),
+                Function::new((Visibility::Public, "c"), [Argument::ConstSelf]).with_return_type(Type::ident("bool")),
+            ]
         } else {
             let mut v = vec![
                 Function::new((Visibility::Public, "a"), [Argument::ConstSelf, Argument::named("x", Type::ident("u32"))]).with_return_type(Type::ident("i32")),
@@ -471,7 +478,7 @@ pub fn c06_mutants(ptrw: usize) -> Vec<(&'static str, Vec<(ItemPath, Module)>, u
         vec![(ItemPath::from("kmut_m"), m)]
     };
     let mut out: Vec<(&'static str, Vec<(ItemPath, Module)>, usize)> = vec![];
-    for family in 0..2usize {
+    for family in 0..3usize {
         for depth in 1..=3usize {
             let good = {
                 let mut v = base_fns(family);
@@ -482,7 +489,16 @@ pub fn c06_mutants(ptrw: usize) -> Vec<(&'static str, Vec<(ItemPath, Module)>, u
             out.push(("compatible", mk(family, Some(good.clone()), depth, false), ptrw));
             out.push(("compatible", mk(family, Some(base_fns(family)), depth, false), ptrw));
             out.push(("compatible", mk(family, None, depth, false), ptrw));
+            if family == 2 {
+                // the receiver-less slot left out of the derived block
+                let mut v = good.clone();
+                v.remove(1);
+                out.push(("mutant/receiver-less-slot-left-out", mk(family, Some(v), depth, false), ptrw));
+            }
             for slot in 0..nbase {
+                if !matches!(good[slot].arguments.first(), Some(Argument::ConstSelf | Argument::MutSelf)) {
+                    continue;
+                }
                 let mut v = good.clone();
                 let under = v[slot].name.0.starts_with('_');
                 v[slot].name = Ident(format!("{}renamed{slot}", if under { "_" } else { "" }));
@@ -546,7 +562,7 @@ pub fn c06_mutants(ptrw: usize) -> Vec<(&'static str, Vec<(ItemPath, Module)>, u
             }
             // swapped order of two base slots
             let mut v = good.clone();
-            let (i, j) = if family == 0 { (0, 2) } else { (2, 4) };
+            let (i, j) = if family == 1 { (2, 4) } else { (0, 2) };
             v.swap(i, j);
             out.push(("mutant/swapped", mk(family, Some(v), depth, false), ptrw));
             if family == 1 {
@@ -955,9 +971,17 @@ pub fn negatives(ctx: &mut Ctx, prop: &str) {
                 ("enum-singleton-string", "#[singleton(\"16\"), copyable] pub enum E: u32 { A = 0, }"),
                 ("extern-value-address-string", "#[address(\"16\")] pub extern g: u32;"),
                 ("extern-value-address-two-arguments", "#[address(16, 32)] pub extern g: u32;"),
+                // one hex digit too many: 2^64 and beyond is not an address
+                ("extern-value-address-beyond-64-bits", "#[address(0x1_0000_0000_0000_1000)] pub extern g: u32;"),
+                ("extern-value-address-2-to-the-64", "#[address(18446744073709551616)] pub extern g: u32;"),
+                ("type-singleton-beyond-64-bits", "#[singleton(0x1_0000_0000_0000_1000)] pub type T { pub a: u32, }"),
+                ("enum-singleton-beyond-64-bits", "#[singleton(0x1_0000_0000_0000_1000), copyable] pub enum E: u32 { A = 0, }"),
+                ("function-address-beyond-64-bits", "pub type T { pub a: u32, }\nimpl T { #[address(0x1_0000_0000_0000_1000)] pub fn f(&self); }"),
             ] {
-                if let Ok(m) = pyxis::parser::parse_str(text) {
-                    must_reject(ctx, prop, kind, vec![(ItemPath::from("kneg_m"), m)], 8);
+                // (a parse error is a rejection as well)
+                match pyxis::parser::parse_str(text) {
+                    Ok(m) => must_reject(ctx, prop, kind, vec![(ItemPath::from("kneg_m"), m)], 8),
+                    Err(_) => ctx.count(&format!("negatives_rejected/{kind}"), 1),
                 }
             }
         }
